@@ -496,6 +496,21 @@ func (sc *Scope) call(x ECall) V {
 		ks, vs := w.sortOf(mt.Key()), w.sortOf(mt.Elem())
 		_, _, vn, vso := mapHeaps(w, mt)
 		return V{sel(sc.heapTerm(vn, vso), m.T), arraySort(ks, vs), nil}
+	case "raw":
+		// raw(s, k): element k of the backing array of slice s (absolute index, not relative to the slice's offset)
+		need(2)
+		b, i := arg(0), arg(1)
+		u, ok := b.GT.Underlying().(*types.Slice)
+		if !ok {
+			specFail("raw expects a slice")
+		}
+		es := w.sortOf(u.Elem())
+		hn, hs := elemsHeap(es)
+		return V{sel(sel(sc.heapTerm(hn, hs), app("sarr", b.T)), i.T), es, u.Elem()}
+	case "zeroArr":
+		need(1)
+		so, _ := vc.ghostSort(x.Args[0].String())
+		return V{w.zero(so), so, nil}
 	case "fzero":
 		need(0)
 		return V{"flt_zero", SFloat, types.Typ[types.Float64]}
